@@ -1,0 +1,102 @@
+//! Verification hooks (H3). Compiled only with `--cfg ts_rs_verif`; exposed as `ts_rs::__verif`.
+//!
+//! Nothing in here changes the behaviour of the exporter unless a harness installs a callback:
+//! `sched` is a no-op and `visit_order` is the identity by default.
+
+use std::{
+    path::{Path, PathBuf},
+    sync::{Arc, RwLock},
+};
+
+use super::ExportError;
+
+type SchedHook = Arc<dyn Fn(&'static str) + Send + Sync>;
+type OrderHook = Arc<dyn Fn(usize) -> Vec<usize> + Send + Sync>;
+
+static SCHED: RwLock<Option<SchedHook>> = RwLock::new(None);
+static ORDER: RwLock<Option<OrderHook>> = RwLock::new(None);
+
+/// Install (or remove) the callback invoked at every instrumented step of the exporter.
+pub fn set_sched_hook(hook: Option<SchedHook>) {
+    *SCHED.write().unwrap_or_else(|e| e.into_inner()) = hook;
+}
+
+/// Called by the exporter before each file-system / registry step.
+pub fn sched(point: &'static str) {
+    let hook = SCHED.read().unwrap_or_else(|e| e.into_inner()).clone();
+    if let Some(hook) = hook {
+        hook(point);
+    }
+}
+
+/// Install (or remove) the function deciding the order in which generated
+/// `visit_dependencies` bodies run their `n` statements.
+pub fn set_visit_order(hook: Option<OrderHook>) {
+    *ORDER.write().unwrap_or_else(|e| e.into_inner()) = hook;
+}
+
+/// Order in which a generated `visit_dependencies` runs its `n` statements.
+pub fn visit_order(n: usize) -> Vec<usize> {
+    let hook = ORDER.read().unwrap_or_else(|e| e.into_inner()).clone();
+    match hook {
+        Some(hook) => hook(n),
+        None => (0..n).collect(),
+    }
+}
+
+/// Forget every file written so far (and clear a poisoned lock).
+pub fn reset_registry() {
+    let m = super::get_export_paths();
+    m.clear_poison();
+    m.lock().unwrap_or_else(|e| e.into_inner()).clear();
+}
+
+/// `None` if the registry lock is currently held or poisoned.
+pub fn registry_snapshot() -> Option<Vec<(PathBuf, Vec<String>)>> {
+    let guard = super::get_export_paths().try_lock().ok()?;
+    let mut v: Vec<(PathBuf, Vec<String>)> = guard
+        .iter()
+        .map(|(k, set)| {
+            let mut names: Vec<String> = set.iter().cloned().collect();
+            names.sort();
+            (k.clone(), names)
+        })
+        .collect();
+    v.sort();
+    Some(v)
+}
+
+/// Whether the real registry lock could be taken right now.
+pub fn registry_is_free() -> bool {
+    match super::get_export_paths().try_lock() {
+        Ok(_) => true,
+        Err(std::sync::TryLockError::Poisoned(_)) => true,
+        Err(std::sync::TryLockError::WouldBlock) => false,
+    }
+}
+
+pub fn registry_is_poisoned() -> bool {
+    super::get_export_paths().is_poisoned()
+}
+
+pub const NOTE: &str = super::NOTE;
+
+pub fn merge(original_contents: String, new_contents: String) -> String {
+    super::merge(original_contents, new_contents)
+}
+
+pub fn import_path(from: &Path, import: &Path) -> Result<String, ExportError> {
+    super::import_path(from, import)
+}
+
+pub fn diff_paths(path: &Path, base: &Path) -> Result<PathBuf, ExportError> {
+    super::path::diff_paths(path, base)
+}
+
+pub fn absolute(path: &Path) -> Result<PathBuf, ExportError> {
+    super::path::absolute(path)
+}
+
+pub fn default_out_dir() -> PathBuf {
+    super::default_out_dir().into_owned()
+}
